@@ -1032,7 +1032,8 @@ hist_is_email (FILE *f, eav_t *ev, int confirmed, int idx, int k)
     long *lb = malloc ((n + 1) * sizeof (long));
     const char *p = place_bytes (a, n, k & 1), *msg;
     for (int i = 0; i < n; i++) lb[i] = a[i];
-    ret = eav_is_email (ev, p, n);
+    /* the empty address is also what (NULL, 0) denotes */
+    ret = eav_is_email (ev, (n == 0 && (k & 2)) ? NULL : p, n);
     msg = eav_errstr (ev);
     fprintf (f, "{\"e\":\"is_email\",\"in\":");
     put_ubytes (f, a, n);
